@@ -9,7 +9,7 @@ BRIEF = {1: "two realistic slips per property (`_1`, `_2`)",
          5: "break the property through a dependency, anchors untouched (`_9`, `_10`)",
          6: "two categories of a taxonomy of real-world numerical-library bugs (`_11`, `_12`)",
          7: "free choice: the most realistic change not yet used, one per property (`_13`)",
-         8: "ten properties, 12-minute budget: a mechanism and code site not in the list of thirteen used (`_14`)"}
+         8: "12-minute budget, one per property (C14's author produced no valid change): a mechanism and code site not in the list of thirteen used (`_14`)"}
 rounds = {}
 for d in glob.glob(os.path.join(ROOT, "seeded", "C*_*")):
     mp = os.path.join(d, "meta.json")
